@@ -22,6 +22,17 @@ Theorem C20_identity_stable : forall ops d u k, identity d u k -> forallb (fun o
 Proof. exact identity_stable. Qed.
 Print Assumptions C20_identity_stable.
 
+(** The premise is needed: the accessory's entity shares its name space with the controllers'
+    pairings, so a controller pairing under the accessory's own device id replaces it (recorded
+    finding C20:controller-named-as-accessory, reproduced on the code by the PSELF histories). *)
+Theorem C20_identity_refuted_when_own_name_is_paired :
+  let d1 := fst (start empty_disk [65] 7 [1]) in
+  let d2 := pair d1 [65] 9 in
+  let '(d3, c3) := start d2 [66] 8 [1] in
+  identity d1 [65] 7 /\ touches [65] (CPair [65] 9) = true /\
+  c_id c3 = [65] /\ c_key c3 = 9 /\ c_discoverable c3 = true /\ d_entities d3 = [([65], 9, false)].
+Proof. exact identity_lost_when_own_name_is_paired. Qed.
+
 (** Pairings persist: a restart never changes the stored entities once the identity exists. *)
 Theorem C20_restart_keeps_pairings : forall d rid rkey h u k p, d_uuid d = Some u -> u <> [] ->
   find_entity (d_entities d) u = Some (k, p) ->
